@@ -17,7 +17,8 @@ Two independent tools, no code shared with the repository:
    If the shared object carries a reader-writer lock of the library (``RWLock`` instance found in its ``__dict__``;
    older python-ecdsa versions had ``_update_lock``) a real second thread would *block* while A is inside a critical
    section; ``LockGuard`` reproduces that: such a preemption point is counted as "B blocked", A is resumed until it
-   releases the lock and B runs at that moment (the schedule a real blocked thread could get).
+   releases the lock and B runs at that moment (the schedule a real blocked thread could get).  The current tree has
+   no such lock (single-assignment publication instead), so this path is exercised only by harness self-tests.
 
 2. ``Explorer`` - complete state-space exploration of the *real* ``_rwlock.py`` source, executed with ``threading``
    replaced by a model module whose ``Lock`` hands control to a deterministic scheduler before every acquire / release,
@@ -38,52 +39,44 @@ _MON_TOOL = 4  # a free sys.monitoring tool id (0=debugger,1=coverage,2=profiler
 
 
 class LockGuard:
-    """Tracks a library RWLock stored on a shared object so that an inline B never dead-locks on a lock A holds."""
+    """Tracks a library RWLock stored on a shared object so that an inline B can never dead-lock on a lock A holds.
+
+    Rule: B is started at a preemption point only when A holds no reader/writer lock of the guarded objects; otherwise
+    the point is "B blocked": B is deferred and runs at the moment A has released everything (inside A's release call)
+    - a schedule a real second thread can get.  Nothing is ever raised into the code under test.  (When A holds only a
+    reader lock a real B that needs only reader locks would not block; those interleavings are not produced - they are
+    counted as deferred.)"""
 
     class _Proxy:
         def __init__(self, guard, real):
             self._g, self._real = guard, real
 
         def reader_acquire(self):
-            g = self._g
-            if g.in_b and g.a_writer:
-                raise _WouldBlock()
             self._real.reader_acquire()
-            if g.in_b:
-                g.b_reader += 1
-            else:
-                g.a_reader += 1
+            if not self._g.in_b:
+                self._g.a_reader += 1
 
         def reader_release(self):
-            g = self._g
             self._real.reader_release()
-            if g.in_b:
-                g.b_reader -= 1
-            else:
+            g = self._g
+            if not g.in_b:
                 g.a_reader -= 1
                 g.released()
 
         def writer_acquire(self):
-            g = self._g
-            if g.in_b and (g.a_writer or g.a_reader):
-                raise _WouldBlock()
             self._real.writer_acquire()
-            if g.in_b:
-                g.b_writer += 1
-            else:
-                g.a_writer += 1
+            if not self._g.in_b:
+                self._g.a_writer += 1
 
         def writer_release(self):
-            g = self._g
             self._real.writer_release()
-            if g.in_b:
-                g.b_writer -= 1
-            else:
+            g = self._g
+            if not g.in_b:
                 g.a_writer -= 1
                 g.released()
 
     def __init__(self, objs):
-        self.a_reader = self.a_writer = self.b_reader = self.b_writer = 0
+        self.a_reader = self.a_writer = 0
         self.in_b = False
         self.deferred = []  # callables to run as soon as A holds nothing
         self.found = 0
@@ -97,17 +90,13 @@ class LockGuard:
                     self.found += 1
 
     def a_holds(self):
-        return self.a_reader or self.a_writer
+        return self.a_reader > 0 or self.a_writer > 0
 
     def released(self):
-        if not self.a_holds() and self.deferred:
+        if not self.a_holds() and self.deferred and not self.in_b:
             todo, self.deferred = self.deferred, []
             for f in todo:
                 f()
-
-
-class _WouldBlock(BaseException):
-    """B reached a lock operation that would block on a lock held by A."""
 
 
 class Preempter:
@@ -707,6 +696,29 @@ class Explorer:
                         t = en[0]
                 else:
                     t = en[0]
+                path.append(t)
+                self.pool.step(w, t)
+        finally:
+            self.pool.stop(w)
+
+    def run_choices(self, choices):
+        """One execution whose i-th scheduling decision is enabled[choices[i] % len(enabled)] (lowest enabled thread once the
+        list is used up). Invariants are checked in every state. -> (some thread was blocked on the way, schedule taken)."""
+        w = self._start()
+        w.initial = shared_snapshot(w)
+        path = []
+        contended = False
+        i = 0
+        try:
+            while True:
+                en = self._check_state(w, path)
+                if self._classify(w, en):
+                    contended = True
+                if not en:
+                    self._epilogue(w, path)
+                    return contended, path
+                t = en[choices[i] % len(en)] if i < len(choices) else en[0]
+                i += 1
                 path.append(t)
                 self.pool.step(w, t)
         finally:
